@@ -38,11 +38,46 @@ pub struct RegFn {
     pub is_extern: bool,
 }
 
+/// registered structs / enums by Rust name; same-named items of different modules are told apart by
+/// the module of the function being translated (`hint`)
+#[derive(Default)]
+pub struct AdtMap {
+    map: HashMap<String, Vec<(String, String)>>,
+    hint: std::cell::RefCell<String>,
+}
+
+impl AdtMap {
+    pub fn insert(&mut self, rust_path: &str, lean: String) {
+        self.map.entry(last_seg(rust_path)).or_default().push((rust_path.to_string(), lean));
+    }
+    pub fn set_hint(&self, module: &str) {
+        *self.hint.borrow_mut() = module.to_string();
+    }
+    pub fn get(&self, name: &str) -> Option<&String> {
+        let v = self.map.get(name)?;
+        if v.len() == 1 {
+            return Some(&v[0].1);
+        }
+        let h = self.hint.borrow();
+        v.iter().max_by_key(|(p, _)| p.bytes().zip(h.bytes()).take_while(|(a, b)| a == b).count()).map(|x| &x.1)
+    }
+    pub fn contains_key(&self, name: &str) -> bool {
+        self.map.contains_key(name)
+    }
+}
+
+impl std::ops::Index<&String> for AdtMap {
+    type Output = String;
+    fn index(&self, k: &String) -> &String {
+        self.get(k).expect("AdtMap index")
+    }
+}
+
 #[derive(Default)]
 pub struct Registry {
     pub fns: HashMap<usize, RegFn>,
-    pub structs: HashMap<String, String>,
-    pub enums: HashMap<String, String>,
+    pub structs: AdtMap,
+    pub enums: AdtMap,
     pub consts: HashMap<String, String>,
 }
 
@@ -62,10 +97,10 @@ impl Registry {
                 }
             }
             TargetKind::Struct => {
-                self.structs.insert(last_seg(&t.rust_path), t.lean_name.clone());
+                self.structs.insert(&t.rust_path, t.lean_name.clone());
             }
             TargetKind::Enum => {
-                self.enums.insert(last_seg(&t.rust_path), t.lean_name.clone());
+                self.enums.insert(&t.rust_path, t.lean_name.clone());
             }
             TargetKind::Const => {
                 self.consts.insert(t.rust_path.clone(), t.lean_name.clone());
